@@ -6,7 +6,7 @@
    Hand-written line by line from the Python source; tied to it by the exact token-stream
    correspondence on every frame of every generated history. *)
 From Coq Require Import ZArith List Bool Lia.
-From Urwid Require Import PyBase TermRef.
+From Urwid Require Import PyBase PyList attrspec_escape_gen TermRef.
 Import ListNotations.
 Open Scope Z_scope.
 
@@ -52,24 +52,13 @@ Record cfg := mkCfg {
   g_bbb : bool;         (* self.bg_bright_is_blink *)
   g_atab : list aentry }.
 
-(* Screen._attrspec_to_escape (term != "fbterm"): the SGR parameter list *)
+(* Screen._attrspec_to_escape (term != "fbterm"): the SGR parameter list.  The body is TRANSLATED from the
+   source on every run (Gen/attrspec_escape_gen.v, tools/py2v/mods/attrspec_escape.py); here only the
+   AttrSpec properties it reads are supplied from the record *)
 Definition spec_to_sgr (bib bbb : bool) (a : aspec) : list Z :=
-  let fg :=
-    if s_fgk a =? 3 then [38; 2; s_fr a; s_fg a; s_fb a]
-    else if s_fgk a =? 2 then [38; 5; s_fgn a]
-    else if s_fgk a =? 1 then
-      (if 7 <? s_fgn a then (if bib then [1; s_fgn a - 8 + 30] else [s_fgn a - 8 + 90]) else [s_fgn a + 30])
-    else [39] in
-  let st :=
-    (if s_bold a then [1] else []) ++ (if s_ital a then [3] else []) ++ (if s_under a then [4] else [])
-    ++ (if s_blink a then [5] else []) ++ (if s_stand a then [7] else []) ++ (if s_strike a then [9] else []) in
-  let bg :=
-    if s_bgk a =? 3 then [48; 2; s_br a; s_bg a; s_bb a]
-    else if s_bgk a =? 2 then [48; 5; s_bgn a]
-    else if s_bgk a =? 1 then
-      (if 7 <? s_bgn a then (if bbb then [5; s_bgn a - 8 + 40] else [s_bgn a - 8 + 100]) else [s_bgn a + 40])
-    else [49] in
-  0 :: fg ++ st ++ bg.
+  attrspec_to_sgr_gen (s_fgk a =? 3) (s_fgk a =? 2) (s_fgk a =? 1) (s_fgn a) (s_fr a) (s_fg a) (s_fb a)
+                      (s_bold a) (s_ital a) (s_under a) (s_blink a) (s_stand a) (s_strike a)
+                      (s_bgk a =? 3) (s_bgk a =? 2) (s_bgk a =? 1) (s_bgn a) (s_br a) (s_bg a) (s_bb a) bib bbb.
 
 Definition lookup_attr (c : cfg) (a : Z) : aentry :=
   match nthz (g_atab c) a with Some e => e | None => (2, default_spec) end.
